@@ -33,6 +33,11 @@ impl Same for Plain { fn same(&self, o: &Self) -> bool { self.id == o.id && self
 #[derive(Debug, Clone, PartialEq, ElixirStruct)]
 #[elixir_module = "MyApp.Item"]
 struct Item { count: i64, label: String, maybe: Option<i32>, list: Vec<u8> }
+/// a derived struct with a field of every integer width (the wire turns values beyond 32 bits signed into big integers)
+#[derive(Debug, Clone, PartialEq, ElixirStruct)]
+#[elixir_module = "MyApp.Meter"]
+struct Meter { a: u8, b: i8, c: u16, d: i16, e: u32, f: i32, g: u64, h: i64, opt: Option<u32>, list: Vec<u32> }
+same_eq!(Meter);
 /// variant and field names taken from the vocabulary an atom table may single out
 #[derive(Debug, Clone, Copy, PartialEq, Serialize, Deserialize)]
 enum Word {
@@ -252,6 +257,14 @@ fn main() {
             let extra = derived_struct_shapes(rep);
             check(rep, "Item (ElixirStruct)", &Item { count: i64::MIN, label: "é".into(), maybe: None, list: vec![] });
             check(rep, "Event (ElixirStruct, keyword fields)", &Event { r#type: "t".into(), r#ref: -1, r#fn: Some(i32::MAX), plain: false });
+            // every field at the boundaries of its type and around 2^31 (where the wire changes the integer's representation)
+            for e in [0u32, 1, i32::MAX as u32, 1 << 31, (1 << 31) + 1, u32::MAX - 1, u32::MAX] {
+                for g in [0u64, 1 << 31, u32::MAX as u64, 1 << 32, i64::MAX as u64, 1 << 63, u64::MAX] {
+                    let m = Meter { a: u8::MAX, b: i8::MIN, c: u16::MAX, d: i16::MIN, e, f: if e % 2 == 0 { i32::MIN } else { i32::MAX }, g, h: if g % 2 == 0 { i64::MIN } else { i64::MAX }, opt: Some(e), list: vec![e, 0, u32::MAX] };
+                    check(rep, "Meter (ElixirStruct, every integer width)", &m);
+                    check_dist_header(rep, "Meter (ElixirStruct, every integer width)", &m);
+                }
+            }
             json!({"evaluations": rep.get("evaluations"), "distinct_nontrivial": rep.get("evaluations"), "exhaustive": true, "shape_cases": extra,
                 "rule": "derived Elixir struct mapping: 13 module names around the declared one (prefixes, suffixes, case, missing Elixir. prefix), each field missing or of the wrong type, non-map terms, through from_term and from_bytes; two derived structs through both round trips; every case distinct"})
         });
